@@ -17,7 +17,7 @@ import ar_fam
 
 PID = 'C11'
 LEAN_TARGETS = ['Nitime.Props.C11']
-RULE = ('session 3: the covariance helper, MAR_est_LWR, fit_model, generate_mar and the analyzer also on integer recordings (int16/int32/int64/uint8, mixed kinds for x and y; integer samples cross the protocol as integers: op ccovi, oracle in exact rational arithmetic), float32, big-endian, Fortran-ordered, strided (both axes) and read-only arrays; lwr_recursion on float32 / F-ordered / strided / read-only stacks; fit_model and GrangerAnalyzer for explicit order x max_order (larger, equal, smaller, 1, 0, None, default), order=None explicit, criterion default / AIC / corrected AIC / table; nlags None / omitted / = N; amplitudes 1e-150..1e150 judged against the same data scaled by an exact power of two; nearly collinear channels (cond to 1e9); a perturbation phase (other options, subclass analyzers, results overwritten) followed by a re-run of a sample of the cases on fresh objects; every routine is also run in call sequences on the same argument objects (>=3 evaluations, refilled arrays, fewer/more lags); the covariance helper (auto and cross), MAR_est_LWR and fit_model are also run on record lengths AT and AROUND implementation-size thresholds '
+RULE = ('round 2: one covariance stack whose diagonal / leading slices are handed as VIEWS to the scalar estimators, the one-channel and lower-order recursions before lwr_recursion runs on it (op marp), crosscov_vector(x, x) on one object (L8); refused / failing calls of every entry point then ordinary calls against fresh copies, one GrangerAnalyzer whose read is refused part-way (a later pair does not converge) with vars() compared around the failure and set_input afterwards (op gseqf) (L7); session 3: the covariance helper, MAR_est_LWR, fit_model, generate_mar and the analyzer also on integer recordings (int16/int32/int64/uint8, mixed kinds for x and y; integer samples cross the protocol as integers: op ccovi, oracle in exact rational arithmetic), float32, big-endian, Fortran-ordered, strided (both axes) and read-only arrays; lwr_recursion on float32 / F-ordered / strided / read-only stacks; fit_model and GrangerAnalyzer for explicit order x max_order (larger, equal, smaller, 1, 0, None, default), order=None explicit, criterion default / AIC / corrected AIC / table; nlags None / omitted / = N; amplitudes 1e-150..1e150 judged against the same data scaled by an exact power of two; nearly collinear channels (cond to 1e9); a perturbation phase (other options, subclass analyzers, results overwritten) followed by a re-run of a sample of the cases on fresh objects; every routine is also run in call sequences on the same argument objects (>=3 evaluations, refilled arrays, fewer/more lags); the covariance helper (auto and cross), MAR_est_LWR and fit_model are also run on record lengths AT and AROUND implementation-size thresholds '
         '(every power of two 256..8192 exactly and within +-nlags of it, quick: one exact + one neighbour per power; thorough: all offsets around 2048/4096, decimal thresholds too; the Lean model is compared on all lags of sampled channel pairs, the oracle on every entry); '
         'GrangerAnalyzer objects are re-targeted with set_input (same shape / other length / other rate / other channel count) after reading a model-derived attribute and their order/autocov/model_coef/error_cov judged against the NEW data; '
         'cases from one PRNG state: covariance sequences estimated from coloured multichannel data (N 64..512, thorough ..4096) '
@@ -32,6 +32,8 @@ ASSUMPTIONS = ['real-valued data (lwr_recursion allocates real coefficient array
                'R(0) symmetric',
                'positive-definiteness of the innovation covariance is NOT proved: per-run eigvalsh certificate whenever the block-Toeplitz matrix of the sequence is positive definite']
 TRUSTED_EXTRA = [
+    'op marp: the model threads the covariance stack through the scalar consumers of its diagonal views (`SliceCall`) only; program steps on private copies, on the signal path and lower-order block recursions on leading slices are read-only in the model as well (no stack step); `Generated/GrangerAttrs.lean` (`survivors`, `modelAccumulatorIsLocal`) is an `ast` walk of class GrangerAnalyzer: attribute writes through other aliases of `self` or in base classes are not seen by the translator (the run-time `vars()` comparison of op gseqf sees them)',
+   
     'the lag counts of MAR_est_LWR / fit_model and the shape of the criterion loop are GENERATED from the source (harness/translate_c11.py -> Generated/FitModel.lean); the theorems marEst_order, fitModel_reports_its_order, fitModel_loop_shape are about the generated definitions',
     'Float (complex binary64) instance `GSq CF n` of the list-of-rows matrix text approximates its `GSq ℂ n` instance (unproved; bounded by the 1e-8 comparison); that the ℂ instance IS the matrix recursion of the theorems is proved (lwrLoop_concrete, lwr_solves_concrete)',
     'GrangerAnalyzer as an object: `Model/GrangerObj.lean` (one-time attributes stored on first read, dropped by set_input) is tied to the class by the re-target sequences only (no translator pass over granger.py for C11)',
